@@ -10,6 +10,7 @@ from .factory import ConcFactory, Reject, Opaque
 from .api import PreconditionViolated
 
 RTOL = 1e-9
+RTOL0 = 1e-9
 ATOL = 1e-11
 
 
@@ -69,6 +70,8 @@ class Snap(object):
             else:
                 vals = v.ravel().tolist()
             return ('arr', tuple(v.shape), kind, vals, b, off, tuple(v.strides) if v.size > 1 else ())
+        if isinstance(v, list) and v and all(isinstance(x, str) for x in v):
+            return ('labels', list(v))          # type-label lists: by value (A7)
         if isinstance(v, (list, dict)) or hasattr(v, '__dict__') and not isinstance(v, (types.FunctionType, types.MethodType, type, types.ModuleType)):
             if id(v) in self.ids:
                 return ('ref', self.ids[id(v)])
@@ -114,11 +117,30 @@ def num_eq(a, b):
     return abs(fa - fb) <= ATOL + RTOL * max(abs(fa), abs(fb))
 
 
+NOISE = None      # {path: absolute noise level} while a sensitivity-aware comparison is running
+COLLECT = None    # {path: max |difference|} while the noise of a perturbed run is being measured
+
+
+def _abs_diff(x, y):
+    try:
+        fx, fy = float(x), float(y)
+    except (TypeError, ValueError):
+        return 0.0
+    if math.isnan(fx) or math.isnan(fy) or math.isinf(fx) or math.isinf(fy):
+        return 0.0 if (fx == fy or (math.isnan(fx) and math.isnan(fy))) else float('inf')
+    return abs(fx - fy)
+
+
 def diff(a, b, path, out, limit=12, ignore=()):
     if len(out) >= limit:
         return
     if isinstance(a, (int, float)) and isinstance(b, (int, float)) and not isinstance(a, bool) and not isinstance(b, bool):
+        if COLLECT is not None:
+            COLLECT[path] = max(COLLECT.get(path, 0.0), _abs_diff(a, b))
+            return
         if not num_eq(a, b):
+            if NOISE is not None and _abs_diff(a, b) <= NOISE.get(path, 0.0):
+                return
             out.append('%s: %r != %r' % (path, a, b))
         return
     if type(a) is not type(b):
@@ -135,7 +157,21 @@ def diff(a, b, path, out, limit=12, ignore=()):
                 out.append('%s: aliases different storage (buffer #%d vs #%d)' % (path, a[4], b[4]))
             elif a[5] != b[5] or a[6] != b[6]:
                 out.append('%s: different view of the same storage' % path)
+            if COLLECT is not None:
+                COLLECT[path] = max([COLLECT.get(path, 0.0)] + [_abs_diff(x, y) for x, y in zip(a[3], b[3])
+                                                             if isinstance(x, (int, float)) and isinstance(y, (int, float))])
+                return
             bad = [i for i, (x, y) in enumerate(zip(a[3], b[3])) if not _leaf_eq(x, y)]
+            if bad and a[2] != 'b':
+                # norm-wise tolerance: matrix computations are accurate relative to the largest entries of the result
+                fin = [abs(v) for v in list(a[3]) + list(b[3]) if isinstance(v, (int, float)) and not isinstance(v, bool) and v == v and abs(v) != float('inf')]
+                big = max(fin) if fin else 0.0
+                bad = [i for i in bad if not (isinstance(a[3][i], (int, float)) and isinstance(b[3][i], (int, float))
+                                             and _abs_diff(a[3][i], b[3][i]) <= RTOL * big)]
+            if bad and NOISE is not None:
+                lvl = NOISE.get(path, 0.0)
+                bad = [i for i in bad if not (isinstance(a[3][i], (int, float)) and isinstance(b[3][i], (int, float))
+                                             and _abs_diff(a[3][i], b[3][i]) <= lvl)]
             if bad:
                 i = bad[0]
                 out.append('%s: %d of %d elements differ, first at flat index %d: %r != %r'
@@ -206,10 +242,16 @@ def trial(contract, build, values=None, seed=0, ignore=(), only=None, post_body=
         # the real constructors / setters used to build the pre-state refused these parameters
         return 'reject'
     real = resolve_real(contract.target)
+    from . import api as _api
+    _api.WORST_COND[0] = 1.0
     try:
         out_b = run_native(contract.spec, args_b)
     except PreconditionViolated:
         return 'reject'
+    global RTOL
+    if _api.WORST_COND[0] > 1e8:
+        return 'reject'        # a matrix inverted by the contract is numerically singular: rounding decides the result
+    RTOL = max(RTOL0, 1e3 * 2.3e-16 * _api.WORST_COND[0])
     out_a = run_native(real, args_a)
     diffs = []
     if only is not None:
@@ -248,11 +290,105 @@ def trial(contract, build, values=None, seed=0, ignore=(), only=None, post_body=
                     for nm, ok in post_body(fa, args_a, out_a[1]):
                         if not ok:
                             diffs.append('post_body: %s: does not hold on the post-state of the real code' % nm)
+    if diffs and only is None and out_a[0] == 'return' and out_b[0] == 'return' and not _sensitive_check_disabled:
+        diffs = _filter_by_sensitivity(contract, build, fa.used, seed, real, names, ra, rb, ignore, diffs, post_body)
+        if diffs == 'ill-conditioned':
+            return 'reject'
     if not diffs:
         return None
     return {'inputs': _jsonable(fa.used), 'diffs': diffs, 'seed': seed,
             'code_outcome': out_a[0] if out_a[0] == 'return' else 'raise ' + out_a[1],
             'contract_outcome': out_b[0] if out_b[0] == 'return' else 'raise ' + out_b[1]}
+
+
+_sensitive_check_disabled = False
+PERTURB = 1e-12
+
+
+def _perturbed(values, seed):
+    import random
+    rng = random.Random(seed * 7919 + 13)
+    out = {}
+    for k, v in values.items():
+        if isinstance(v, bool) or isinstance(v, int):
+            out[k] = v
+        elif isinstance(v, float):
+            out[k] = v * (1.0 + PERTURB * rng.uniform(-1, 1))
+        elif isinstance(v, list):
+            a = np.array(v)
+            if a.dtype.kind == 'f':
+                a = a * (1.0 + PERTURB * np.array([rng.uniform(-1, 1) for _ in range(a.size)]).reshape(a.shape))
+            out[k] = a.tolist()
+        else:
+            out[k] = v
+    return out
+
+
+def _filter_by_sensitivity(contract, build, used, seed, real, names, ra, rb, ignore, diffs, post_body):
+    """Numerical disagreements count only when they exceed what a 1e-12 relative perturbation of the inputs does to
+    the result of the contract and of the code themselves (ill-conditioned pre-states -- a nearly singular I - Omega C,
+    cancellation -- amplify rounding in *both*; two algebraically equal evaluation orders then differ far above 1e-9)."""
+    global NOISE, COLLECT
+    try:
+        pv = _perturbed(dict((k, (v.tolist() if isinstance(v, np.ndarray) else v)) for k, v in used.items()), seed)
+        fa2, fb2 = ConcFactory(pv, seed), ConcFactory(pv, seed)
+        with warnings.catch_warnings():
+            warnings.simplefilter('ignore')
+            with np.errstate(all='ignore'):
+                a2, b2 = build(fa2), build(fb2)
+        oa2 = run_native(real, a2)
+        ob2 = run_native(contract.spec, b2)
+        if oa2[0] != 'return' or ob2[0] != 'return':
+            return diffs
+        ra2 = Snap().take([oa2[1]] + [a2[k] for k in sorted(a2)])
+        rb2 = Snap().take([ob2[1]] + [b2[k] for k in sorted(b2)])
+        COLLECT = {}
+        for nm, x, y in zip(names, ra[2], ra2[2]):
+            diff(x, y, nm, [], limit=10 ** 9, ignore=ignore)
+        for nm, x, y in zip(names, rb[2], rb2[2]):
+            diff(x, y, nm, [], limit=10 ** 9, ignore=ignore)
+        noise = COLLECT
+        COLLECT = None
+        # ill-conditioned pre-state (amplification of a 1e-12 perturbation beyond 1e5, or non-finite noise):
+        # rounding dominates both sides; such a sample can neither confirm nor refute anything
+        scale = {}
+        COLLECT = scale
+        for nm, x, y in zip(names, rb[2], _zero_like(rb[2])):
+            diff(x, y, nm, [], limit=10 ** 9, ignore=ignore)
+        COLLECT = None
+        for k, v in noise.items():
+            if v != v or v == float('inf') or v > 1e-7 * max(scale.get(k, 0.0), 1e-300) and v > 1e-9:
+                return 'ill-conditioned'
+        NOISE = dict((k, v) for k, v in noise.items() if v == v)
+        out = []
+        for nm, x, y in zip(names, ra[2], rb[2]):
+            if any(nm == p or nm.startswith(p + '.') or nm.startswith(p + '[') for p in ignore):
+                continue
+            diff(x, y, nm, out, ignore=ignore)
+        NOISE = None
+        out += [d for d in diffs if d.startswith('post_body')]
+        return out
+    except Exception:
+        return diffs
+    finally:
+        NOISE = None
+        COLLECT = None
+
+
+def _zero_like(x):
+    if isinstance(x, bool):
+        return x
+    if isinstance(x, (int, float)):
+        return 0.0
+    if isinstance(x, tuple):
+        if x and x[0] == 'arr':
+            return ('arr', x[1], x[2], [0.0 if isinstance(v, (int, float)) and not isinstance(v, bool) else v for v in x[3]], x[4], x[5], x[6])
+        return tuple(_zero_like(v) for v in x)
+    if isinstance(x, list):
+        return [_zero_like(v) for v in x]
+    if isinstance(x, dict):
+        return dict((k, _zero_like(v)) for k, v in x.items())
+    return x
 
 
 def _jsonable(d):
